@@ -191,6 +191,7 @@ fn twin(name: &str, seed: u64, budget: u64) -> i32 {
         "signature_structure" => engine_w::twin_signature_structure(seed, budget),
         "signature_table" => engine_w::twin_signature_table(seed, budget),
         "engines_agree" => engine_w::search_pairs(false, seed, budget, true),
+        "greedy_pairs" => engine_w::search_pairs(true, seed, budget, true),
         "parse_remote_meta_output" => twins::parse_meta(seed, budget),
         _ => {
             eprintln!("unknown twin {name}");
